@@ -49,8 +49,8 @@ func (g *Gen) Emit(in interface{}) {
 	mine := g.seen%g.n == g.shard
 	g.seen++
 	if mine {
-		g.emit(in)
 		g.emitted++
+		g.emit(in)
 	}
 }
 
